@@ -404,7 +404,7 @@ pub fn dec_event(
     let g_o: Vec<usize> = arrival.iter().filter(|a| !a.0).map(|a| a.1).collect();
     let g_r: Vec<usize> = arrival.iter().filter(|a| a.0).map(|a| a.1).collect();
     // (restored list in iteration order, probe results) or failure
-    type Out = (Vec<(usize, Vec<u8>)>, Vec<(usize, bool)>, usize);
+    type Out = (Vec<(usize, Vec<u8>)>, Vec<(usize, bool)>, usize, String);
     let res: Result<Out, String> = with_engine!(engine, E, {
         let r0 = catch_unwind(AssertUnwindSafe(|| -> Result<Out, String> {
             match kind {
@@ -415,7 +415,7 @@ pub fn dec_event(
                     let mut v: Vec<(usize, Vec<u8>)> = m.into_iter().collect();
                     v.sort();
                     let pr = probes.iter().map(|p| (*p, v.iter().any(|x| x.0 == *p))).collect();
-                    Ok((v, pr, 0))
+                    Ok((v, pr, 0, String::new()))
                 }
                 Some(kind) => {
                     let mut d = DecObj::<E>::new(kind, k, r, sb).map_err(|e| util::err_json(&e))?;
@@ -444,7 +444,8 @@ pub fn dec_event(
                             (*p, got.is_some())
                         })
                         .collect();
-                    Ok((v, pr, again))
+                    let proto = crate::replay::iter_protocol_dec(&result, &v);
+                    Ok((v, pr, again, proto))
                 }
             }
         }));
@@ -476,7 +477,10 @@ pub fn dec_event(
         o = o.raw("odig", &digest_list(&all));
     }
     let ok = match res {
-        Ok((v, pr, again)) => {
+        Ok((v, pr, again, proto)) => {
+            if !proto.is_empty() {
+                o = o.raw("proto", &proto);
+            }
             let prs: Vec<String> = pr.iter().map(|(p, s)| format!("[{},{}]", util::enc(*p), s)).collect();
             if big {
                 let idx: Vec<usize> = v.iter().map(|x| x.0).collect();
@@ -638,7 +642,7 @@ fn family_c03(ctx: &mut Ctx) {
     let mut rng = util::rng(ctx.seed, 3);
     let mut cfgs: Vec<(&str, usize, usize, usize)> = vec![
         ("high", 3, 2, 2), ("low", 2, 3, 66), ("high", 5, 3, 130), ("low", 3, 5, 64), ("high", 9, 4, 34), ("low", 4, 9, 192),
-        ("high", 17, 16, 6), ("low", 16, 17, 62), ("high", 8, 4, 1026), ("low", 4, 8, 3000), ("high", 70, 13, 2), ("low", 13, 70, 4), ("high", 128, 32, 64), ("low", 32, 128, 64),
+        ("high", 17, 16, 6), ("low", 16, 17, 62), ("high", 8, 4, 1026), ("low", 4, 8, 3000), ("high", 4, 2, 2112), ("low", 3, 5, 4480), ("high", 5, 5, 2050), ("high", 70, 13, 2), ("low", 13, 70, 4), ("high", 128, 32, 64), ("low", 32, 128, 64),
         ("high", 300, 200, 2), ("low", 200, 300, 2), ("high", 1000, 100, 2), ("low", 100, 1000, 2),
         ("high", 3000, 1000, 66), ("low", 1000, 3000, 130), ("high", 1543, 511, 64),
     ];
@@ -860,6 +864,9 @@ fn family_c11(ctx: &mut Ctx) {
         allo.shuffle(&mut rng);
         dec_event(ctx, e, kd, k, r, &orig, &rec, &allo, &[0, k - 1]);
     }
+    // nearly everything received, in several orders: single losses around bitmap word boundaries
+    let n = if ctx.thorough { 200 } else { 40 };
+    long_run_rounds(ctx, &mut rng, &engines, n, true);
 }
 
 /// C12 at scale: sparse received sets on large configurations, many accessor probes.
@@ -1025,7 +1032,7 @@ fn family_c04(ctx: &mut Ctx) {
 fn family_c09(ctx: &mut Ctx) {
     let engines = ctx.engines.clone();
     let mut rng = util::rng(ctx.seed, 9);
-    let lim = if ctx.thorough { 24 } else { 12 };
+    let lim = if ctx.thorough { 24 } else { 11 };
     let mut cfgs: Vec<(usize, usize)> = Vec::new();
     for k in 1..=lim {
         for r in 1..=lim {
@@ -1042,25 +1049,47 @@ fn family_c09(ctx: &mut Ctx) {
         let Some(dr) = ops::default_rate_of(k, r) else { continue };
         let sb = if k + r > 200 { 2 } else { *[2usize, 4, 66].choose(&mut rng).unwrap() };
         let orig = originals(ctx.seed, ctx.counter, k, sb);
-        let e = engines[(ci + ctx.seed as usize) % engines.len()];
         ctx.group = Some(ci as i64);
-        // default-rate family member
-        let fam: Vec<Option<Kind>> = if e == "default" { vec![Some(Kind::Default), Some(Kind::Rs), None] } else { vec![Some(Kind::Default)] };
-        let kd = fam[ci % fam.len()];
-        let (l1, rec1) = enc_event(ctx, e, kd, k, r, &orig, None, false);
-        // the dedicated codec the code's own rule names, reference engine
+        // the API layers proper: DefaultRate<DefaultEngine>, ReedSolomonEncoder, the one-shot function (in turn) ...
+        let layer = [Some(Kind::Default), Some(Kind::Rs), None][ci % 3];
+        let (l1, rec1) = enc_event(ctx, "default", layer, k, r, &orig, None, false);
+        // ... next to the dedicated codec of the rate the code's own rule names, on the reference engine
         let ded = if dr == "high" { Kind::High } else { Kind::Low };
         let (l2, _) = enc_event(ctx, "naive", Some(ded), k, r, &orig, None, false);
         let here = ctx.trace.lines as i64 + 1;
         ctx.trace.line(&Obj::new().str("ev", "same").int("g", ci as i64).int("a", l1 as i64 - here).int("b", l2 as i64 - here).done());
-        // decode dedicated-encoded shards with the default-rate family
+        // "with any engine": the default-rate codec over an explicit engine (rotating) against the same dedicated round
+        let e = engines[(ci + ctx.seed as usize) % engines.len()];
+        if e != "default" {
+            let (l3, _) = enc_event(ctx, e, Some(Kind::Default), k, r, &orig, None, false);
+            let here = ctx.trace.lines as i64 + 1;
+            ctx.trace.line(&Obj::new().str("ev", "same").int("g", ci as i64).int("a", l3 as i64 - here).int("b", l2 as i64 - here).done());
+        }
+        ctx.group = None;
+        // decode dedicated-encoded shards with the API layer
         if let Some(rec) = rec1 {
             if ci % 2 == 0 && rec.len() == r {
                 let pats = patterns(&mut rng, k, r, 1);
                 let reference = crate::dut::ref_encode(dr, k, r, &orig);
-                dec_event(ctx, e, kd, k, r, &orig, &reference, &pats[1], &[0, k - 1, k]);
+                dec_event(ctx, "default", layer, k, r, &orig, &reference, &pats[1], &[0, k - 1, k]);
             }
         }
+    }
+    // long shards (kernels that work in strips of blocks) through the API layers
+    for (ci, (k, r, sb)) in [(3usize, 2usize, 3000usize), (2, 3, 2112), (5, 5, 4480), (4, 2, 2050), (9, 4, 1026)].into_iter().enumerate() {
+        let Some(dr) = ops::default_rate_of(k, r) else { continue };
+        let orig = originals(ctx.seed, ctx.counter, k, sb);
+        ctx.group = Some(10000 + ci as i64);
+        let layer = [Some(Kind::Default), Some(Kind::Rs), None][ci % 3];
+        let (l1, _) = enc_event(ctx, "default", layer, k, r, &orig, None, false);
+        let ded = if dr == "high" { Kind::High } else { Kind::Low };
+        let (l2, _) = enc_event(ctx, "naive", Some(ded), k, r, &orig, None, false);
+        let here = ctx.trace.lines as i64 + 1;
+        ctx.trace.line(&Obj::new().str("ev", "same").int("g", 10000 + ci as i64).int("a", l1 as i64 - here).int("b", l2 as i64 - here).done());
+        ctx.group = None;
+        let reference = crate::dut::ref_encode(dr, k, r, &orig);
+        let pats = patterns(&mut rng, k, r, 1);
+        dec_event(ctx, "default", layer, k, r, &orig, &reference, &pats[1], &[0, k - 1, k]);
     }
 }
 
